@@ -7,6 +7,9 @@ import (
 
 // RandSeed generates a random hash seed.
 func RandSeed() (uint32, error) {
+	if s, ok := verifSeed(); ok {
+		return s, nil
+	}
 	b := make([]byte, 4)
 	if _, err := rand.Read(b); err != nil {
 		return 0, err
